@@ -185,6 +185,13 @@ Definition qexp (me : Z * Z) : Q :=
 Definition tab_block (T : Q) (xs : list Z) (vs : list (Z * Z)) : list (Q * Q) :=
   combine (map (fun x => q30 x / T) xs) (map qexp vs).
 
+Fixpoint last_state (s : sampler) (ms : list (option sampler)) : sampler :=
+  match ms with
+  | [] => s
+  | Some s' :: r => last_state s' r
+  | None :: r => last_state s r
+  end.
+
 (* run_trace: indices (from `skip` on) of the steps at which the model and the implementation's
    observations differ (os = observations of the steps skip, skip+1, ...), and the arg-max selection
    (summary / export) of the final coefficients *)
@@ -192,7 +199,7 @@ Definition run_trace (keep fixc : bool) (k : kind) (tab : list (Q * Q)) (tol : Q
            (s : sampler) (ops : list sop) (skip : nat) (os : list obs) : list nat * list nat :=
   let ms := trace (g_tab tab) (mkCfg keep fixc) k s ops in
   (bad_steps tol skip (skipn skip ms) os,
-   match last ms None with Some s' => selected (alpha s') | None => selected (alpha s) end).
+   selected (alpha (last_state s ms))).
 
 Definition run_selected (alpha : list (list Q)) : list nat := selected alpha.
 (* one sampling call compared with the implementation: (agrees within tol, arg-max of every model column) *)
